@@ -152,8 +152,12 @@ def run_property(prop, tier, repo=None, variants=None, verbose=True, replay=None
         if repo != build.REPO and not os.environ.get("VERIF_KEEP_CACHE"):
             import shutil
             shutil.rmtree(d, ignore_errors=True)   # scratch copies leave no cache behind
+            tagdir = os.path.dirname(d)
             try:
-                os.rmdir(os.path.dirname(d))
+                if all(f.endswith(".lock") for f in os.listdir(tagdir)):
+                    for f in os.listdir(tagdir):
+                        os.unlink(os.path.join(tagdir, f))
+                    os.rmdir(tagdir)
             except OSError:
                 pass
     return finish(prop, tier, mod, reports, stats, t0, repo, verbose)
